@@ -52,6 +52,7 @@ type irFunc struct {
 
 var (
 	rePtrType = regexp.MustCompile(`(?:\[\d+ x [^\]]*\]|%"[^"]*"|%[\w.]+|i\d+|float|double)\*+`)
+	reGEPConst = regexp.MustCompile(`getelementptr inbounds \([^()]*\)`)
 	reDefine = regexp.MustCompile(`^define\s+(\S+)\s+@"?([^"(]+)"?\(([^)]*)\)`)
 	reAssign = regexp.MustCompile(`^\s+(%[\w.]+) = (.*)$`)
 )
@@ -64,6 +65,8 @@ func parseIR(text string) []*irFunc {
 		line := strings.ReplaceAll(strings.ReplaceAll(rawLine, "{ double, double }", "c128"), "{ float, float }", "c64")
 		// pointer types of any shape become the single token ptr (a 64-bit word)
 		line = rePtrType.ReplaceAllString(line, "ptr")
+		// constant-expression addresses (descriptor globals) are one opaque operand
+		line = reGEPConst.ReplaceAllString(line, "@gepconst")
 		if m := reDefine.FindStringSubmatch(line); m != nil {
 			cur = &irFunc{name: m[2], ret: m[1], text: strings.Replace(rawLine, " #0 {", " {", 1) + "\n"}
 			for _, p := range strings.Split(m[3], ",") {
@@ -635,6 +638,12 @@ func (e *irEval) eval(fn *irFunc) (ret irVal) {
 				e.vals[ins.res] = irVal{t: name, w: lw, poison: "false"}
 			}
 		case "ret":
+			if ins.ty == "ptr" {
+				if v, ok := e.vals[ins.args[0]]; ok {
+					return v
+				}
+				return irVal{} // a pointer produced by a run-time call: opaque
+			}
 			if len(ins.args) == 1 && w > 0 {
 				return e.operand(ins.args[0], w)
 			}
